@@ -29,27 +29,27 @@ PROPS = {
             "rule": "seeded pin/lookup/terminate/wait histories on the real DialogBasedBackend under a virtual clock; " + SIDE_NOTE},
     "C20": {"lean": ["C20"], "expected": ["K20"], "streams": [{"name": "send", "gen": "send"}],
             "rule": "exhaustive fault patterns: cached connection script x reconnectable path x listener up/down per message, sequences of 1-3 messages, for TCPClientTransport, FailOverClientTransport and TCPBackend; " + SIDE_NOTE},
-    "C01": {"lean": ["C01"], "expected": ["Tables"], "also": ["C11"],
+    "C01": {"lean": ["C01"], "expected": ["Tables", "Globals"], "also": ["C11"],
             "streams": [{"name": "pipe", "gen": "pipe"}, {"name": "frame", "gen": "frame", "args": {"focus": "frame"}}],
             "rule": PIPE_RULE},
-    "C02": {"lean": ["C02"], "expected": ["Tables", "K02"], "streams": [{"name": "pipe", "gen": "pipe", "args": {"focus": "responses"}}, {"name": "pipe2", "gen": "pipe", "args": {"focus": "dialogs"}}],
+    "C02": {"lean": ["C02"], "expected": ["Tables", "K02", "Globals"], "streams": [{"name": "pipe", "gen": "pipe", "args": {"focus": "responses"}}, {"name": "pipe2", "gen": "pipe", "args": {"focus": "dialogs"}}],
             "rule": PIPE_RULE},
-    "C03": {"lean": ["C03"], "streams": [{"name": "pipe", "gen": "pipe", "args": {"focus": "requests"}}],
+    "C03": {"lean": ["C03"], "expected": ["Globals"], "streams": [{"name": "pipe", "gen": "pipe", "args": {"focus": "requests"}}],
             "rule": PIPE_RULE},
     "C04": {"lean": ["C04"], "also": ["C15"],
             "streams": [{"name": "pipe", "gen": "pipe", "args": {"focus": "dialogs"}}, {"name": "pins", "gen": "pins"}],
             "rule": PIPE_RULE},
-    "C06": {"lean": ["C06"], "expected": ["K06"], "streams": [{"name": "pipe", "gen": "pipe", "args": {"focus": "requests"}}],
+    "C06": {"lean": ["C06"], "expected": ["K06", "Globals"], "streams": [{"name": "pipe", "gen": "pipe", "args": {"focus": "requests"}}],
             "rule": PIPE_RULE},
     "C07": {"lean": ["C07"], "expected": ["Wiring", "Ctors", "K07"], "streams": [{"name": "pipe", "gen": "pipe", "args": {"focus": "requests"}}, {"name": "pipe2", "gen": "pipe", "args": {"focus": "responses"}}, {"name": "wire", "gen": "wire", "args": {"focus": "c07"}}], "also": ["C12", "C02"],
             "rule": PIPE_RULE},
     "C12": {"lean": ["C12"], "expected": ["K12"], "streams": [{"name": "pipe", "gen": "pipe", "args": {"focus": "tcp"}}],
             "rule": PIPE_RULE},
-    "C13": {"lean": ["C13"], "streams": [{"name": "pipe", "gen": "pipe", "args": {"focus": "requests"}}],
+    "C13": {"lean": ["C13"], "expected": ["Globals"], "streams": [{"name": "pipe", "gen": "pipe", "args": {"focus": "requests"}}],
             "rule": PIPE_RULE},
-    "C17": {"lean": ["C17"], "expected": ["Tables", "Wiring"], "streams": [{"name": "pipe", "gen": "pipe", "args": {"focus": "twins"}}],
+    "C17": {"lean": ["C17"], "expected": ["Tables", "Wiring", "Globals"], "streams": [{"name": "pipe", "gen": "pipe", "args": {"focus": "twins"}}],
             "rule": PIPE_RULE},
-    "C16": {"lean": ["C16"], "expected": ["Tables", "K16"], "streams": [{"name": "dialog", "gen": "dialog"}],
+    "C16": {"lean": ["C16"], "expected": ["Tables", "K16", "Globals"], "streams": [{"name": "dialog", "gen": "dialog"}],
             "rule": "exhaustive assignments of Call-ID, tags and URIs from small alphabets x both orientations x request/response x decorations, plus random long identifiers; oracle: bijection between abstract dialog keys and implementation identifiers; non-trivial = identifier produced"},
     "C11": {"lean": ["C11"], "expected": ["Reader"], "streams": [{"name": "frame", "gen": "frame", "args": {"focus": "frame"}}],
             "rule": "generated message sequences under scripted segmentations (exhaustive single/double cuts of short streams, random multi-cuts down to 1-byte segments) through ParseMessage on one bufio.Reader; non-trivial = at least one message extracted; distinct by op line"},
@@ -60,7 +60,7 @@ PROPS = {
     "C09": {"lean": ["C09"], "expected": ["Wiring", "Locks"], "streams": [{"name": "race", "gen": "race", "race": True, "timeout": 900}],
             "rule": "stress runs of several real Proxy loops of one service fed concurrently with membership changes, pool, transport table and resolver traffic under the Go race detector, GOMAXPROCS varied; every request must reach exactly one backend; non-trivial = run under load (>= 100 requests); distinct by (listeners, seed, GOMAXPROCS)"},
     "C14": {
-        "lean": ["C14"], "expected": ["Tables"],
+        "lean": ["C14"], "expected": ["Tables", "Globals"],
         "streams": [STD, {"name": "codec", "gen": "codec"}],
         "rule": "values rendered from an abstract grammar of the RFC 3261 productions in use (plus IPv6 / ';?'-in-user classes and an out-of-grammar stream); non-trivial = decoded successfully; distinct by input text",
     },
